@@ -278,7 +278,7 @@ def chunks(tier, seed):
         maxlen, nrand, parts2 = 3, 3000, 4
         alpha = "small"
     elif tier == "thorough":
-        maxlen, nrand, parts2 = 4, 60000, 1
+        maxlen, nrand, parts2 = 4, 240000, 1
         alpha = "full"
     else:
         maxlen, nrand, parts2 = 3, 10000, 4
